@@ -78,8 +78,12 @@ func cmdCheck(args []string) int {
 	tier := fs.String("tier", envOr("VERIF_TIER", "quick"), "quick|thorough")
 	only := fs.String("only", "", "evaluate/print only this rule")
 	arch := fs.String("arch", "amd64", "GOARCH to load")
+	replay := fs.String("replay", "", "replay file written by an earlier failing run: re-evaluate that obligation on the current tree")
 	fs.Parse(args[1:])
 	onlyRule = *only
+	if *replay != "" {
+		return cmdReplay(id, *replay)
+	}
 	f, ok := registry[id]
 	if !ok {
 		fmt.Fprintf(os.Stderr, "unknown property %s\n", id)
@@ -89,6 +93,9 @@ func cmdCheck(args []string) int {
 	if *tier == "thorough" {
 		if extra, ok := thoroughArchs[id]; ok {
 			archs = append(archs, extra...)
+		} else {
+			// every rule is re-evaluated on the arm64 build (build-tagged files, different syscall tables)
+			archs = append(archs, "arm64")
 		}
 	}
 	seed, _ := strconv.Atoi(os.Getenv("VERIF_SEED"))
@@ -204,4 +211,70 @@ func cmdBaseline(args []string) int {
 		return 2
 	}
 	return 0
+}
+
+// cmdReplay re-evaluates the obligation recorded in a replay file on the
+// current tree (same GOARCH and tier), prints it with its detail record, and
+// exits 1 with a VIOLATION line if it still fails. Evidence and replay files
+// are left untouched.
+func cmdReplay(id, path string) int {
+	b, err := os.ReadFile(path)
+	if err != nil {
+		fmt.Fprintln(os.Stderr, err)
+		return 2
+	}
+	var rec struct {
+		Property, Rule, Key, Tier, Goarch string
+	}
+	if err := json.Unmarshal(b, &rec); err != nil {
+		fmt.Fprintln(os.Stderr, "replay file:", err)
+		return 2
+	}
+	if rec.Property != id {
+		fmt.Fprintf(os.Stderr, "replay file is for %s, not %s\n", rec.Property, id)
+		return 2
+	}
+	f, ok := registry[id]
+	if !ok {
+		fmt.Fprintf(os.Stderr, "unknown property %s\n", id)
+		return 2
+	}
+	arch := rec.Goarch
+	key := rec.Key
+	if i := strings.LastIndex(key, " ["); i >= 0 && strings.HasSuffix(key, "]") {
+		arch, key = key[i+2:len(key)-1], key[:i]
+	}
+	if arch == "" {
+		arch = "amd64"
+	}
+	if rec.Tier == "" {
+		rec.Tier = "quick"
+	}
+	c := runOne(id, rec.Tier, arch, 0, f)
+	found := false
+	status := 0
+	for _, o := range c.Obs {
+		if o.Rule != rec.Rule || o.Key != key {
+			continue
+		}
+		found = true
+		fmt.Printf("REPLAY %s %s @ %s [%s]: %s: %s\n", o.Rule, o.Key, o.Pos, arch, o.Status, o.Msg)
+		if o.Detail != nil {
+			d, _ := json.MarshalIndent(o.Detail, "", " ")
+			fmt.Println(string(d))
+		}
+		if o.Status == "fail" || o.Status == "undecided" {
+			status = 1
+		}
+	}
+	if !found {
+		fmt.Printf("REPLAY %s %s: the obligation no longer exists on the current tree (rule instances changed); run the full check\n", rec.Rule, key)
+		return 0
+	}
+	if status == 1 {
+		fmt.Printf("VIOLATION property=%s replay=%s\n", id, path)
+	} else {
+		fmt.Println("REPLAY: not reproduced on the current tree")
+	}
+	return status
 }
